@@ -22,7 +22,7 @@ class C05(C.ProgramDiff):
     technique = ('property-based differential testing against a reference interpreter (Hypothesis) + '
                  'bounded-exhaustive enumeration of clause bodies with cuts')
     rule = ('(a) random programs whose bodies use !, ",", ";", "->", if-then-else and \\+ with cuts only in '
-            'transparent positions, queried with 3 queries (half of them derived from clause heads); (b) bounded-exhaustive: clause '
+            'transparent positions, queried with 3 queries (half of them derived from clause heads); directed families in 3 cases of 8: a body-only variable first bound inside a branch that is not always taken and used afterwards on every path; a branch ending in a cut followed by a row of 2-4 two-way choices in the same body; sibling branches that differ only in a quoted atom printing like a variable / structure; also cut idioms, bodies of 10-18 goals with a late cut, programs loaded as two scripts; (b) bounded-exhaustive: clause '
             'bodies with <= 2 leaves and a quarter of the 3-leaf ones (thorough: all <= 3 leaves and all 4-leaf ones without negation) over {m0,m1,m2,true,fail,!,is1,r2} x {",",";","->"} (+ one \\+ at any '
             'node) that contain a cut, as middle clause of a 3-clause predicate called as w(W), t(..), w(W2). Answers '
             'compared with reference R (and R with the second engine). (c) soak: one engine, 6^5 cuts inside one enumeration and 12 000 (thorough 60 000) repeated queries with cuts - the answers must not change. Non-trivial = a cut is reached in R\'s run and '
